@@ -57,6 +57,11 @@ func allScenarios(tier string) []scenario {
 	}
 	out := asyncScenarios(mb)
 	out = append(out, readonlyScenarios(th)...)
+	fb := 2
+	if th {
+		fb = 3
+	}
+	out = append(out, fineScenarios(fb)...)
 	return out
 }
 
@@ -72,6 +77,8 @@ func exploreScenario(idx int, sc scenario, deadline time.Time) scenResult {
 	if sc.MaxBound < 99 {
 		bounds = []int{sc.MaxBound}
 	}
+	rtSetFine(sc.Fine)
+	defer rtSetFine(false)
 	for _, bound := range bounds {
 		var viol *verdict
 		var vsched []int
@@ -154,6 +161,9 @@ func racePass(tier string) {
 	for _, procs := range []int{1, 2, 16} {
 		runtime.GOMAXPROCS(procs)
 		for idx, sc := range scs {
+			if sc.Family == "fine" {
+				continue // same bodies as the readonly family
+			}
 			if sc.Family == "readonly" && idx%7 != 0 && tier != "thorough" {
 				continue
 			}
